@@ -26,7 +26,7 @@ RULE = ('(1) all non-empty subsets of present minutes for interval lengths 1..10
 ASSUMPTIONS = ['an exception is acceptable for a candle / batch whose timestamps are older than the stored ones and unknown, as long '
                'as the store is left unchanged', 'bulk adds that overlap the stored tail are no longer than the stored series']
 MIN_OBS = {'fill_cases_with_candles_outside_or_repeated': 300, 'fill_cases_batch_as_long_as_interval_but_incomplete': 100, 'fill_cases': 2000, 'fill_missing_minutes': 5000, 'store_ops': 3000, 'store_replacements': 300,
-           'store_bulk_overlaps': 100, 'spacing_cases': 6, 'route_sessions': 30, 'fast_route_sessions': 10,
+           'store_bulk_overlaps': 100, 'spacing_cases': 6, 'spacing_cases_with_warmup': 4, 'route_sessions': 30, 'fast_route_sessions': 10,
            'series_observations': 3000, 'finer_data_route_observations': 200, 'stored_candles_compared': 5000}
 EXHAUSTIVE_NOTE = 'part (1): every non-empty subset of present minutes for every interval length 1..10 (2036 patterns) in both tiers'
 
@@ -310,6 +310,32 @@ def _part3(job):
             viol.append({'key': 'one_minute_candles_rejected', 'msg': f'spacing 60000 -> {accepted}', 'witness': {}})
         if gap != 60000 and accepted is True:
             viol.append({'key': 'wrong_spacing_accepted', 'msg': f'leading candles {gap} ms apart were accepted',
+                         'witness': {'gap': gap}})
+    # the same with well-formed warm-up candles passed along: the trading candles are validated all the same
+    for gap in (60000, 300000, 120000, 0):
+        tr = gen.candles({'seed': 8, 'n': 30})
+        wu = gen.candles({'seed': 9, 'n': 30})
+        wu[:, 0] = tr[0, 0] - (30 - np.arange(30)) * 60000
+        tr[1:, 0] = tr[0, 0] + gap + np.arange(29) * 60000
+        session.isolate()
+        cfg = {'starting_balance': 1000, 'fee': 0, 'type': 'futures', 'futures_leverage': 1, 'futures_leverage_mode': 'cross',
+               'exchange': 'Sandbox', 'warm_up_candles': 30}
+        routes = [{'exchange': 'Sandbox', 'symbol': 'BTC-USDT', 'timeframe': '1m',
+                   'strategy': make_strategy({'seed': 1, 'p_enter': 0, 'observe': 'none'})}]
+        cnt['spacing_cases_with_warmup'] = cnt.get('spacing_cases_with_warmup', 0) + 1
+        try:
+            backtest(cfg, routes, [], {'Sandbox-BTC-USDT': {'exchange': 'Sandbox', 'symbol': 'BTC-USDT', 'candles': tr}},
+                     {'Sandbox-BTC-USDT': {'exchange': 'Sandbox', 'symbol': 'BTC-USDT', 'candles': wu}})
+            accepted = True
+        except ValueError:
+            accepted = False
+        except Exception as ex:
+            accepted = f'other:{type(ex).__name__}'
+        if gap == 60000 and accepted is not True:
+            viol.append({'key': 'one_minute_candles_rejected', 'msg': f'spacing 60000 with warm-up candles -> {accepted}', 'witness': {}})
+        if gap != 60000 and accepted is True:
+            viol.append({'key': 'wrong_spacing_accepted:with_warmup_candles',
+                         'msg': f'leading trading candles {gap} ms apart were accepted when warm-up candles were passed',
                          'witness': {'gap': gap}})
     # several candle sets (second traded symbol / data-route symbol): every set is validated, wherever the bad one is listed
     for gap in (60000, 300000, 59999):
